@@ -444,6 +444,11 @@ func main() {
 		}
 	}
 	c.Extra["criterion_representations_built"] = repEv
+	c.Extra["geoip"] = "GeoIP criteria (fromGeoIPCountries, toGeoIPCountries, toMatchedDomainExpectedGeoIPCountries) cannot be exercised for matching: there is no MaxMind database in the image. Only the load-time rejection of GeoIP criteria without a database is checked (part load-rejection)."
+	c.Extra["bounds"] = map[string]any{
+		"quick":    "source-side and dest-side products over the base vocabulary; cross pairs (every source-kind variant x every destination-kind variant x network); full product of all 8 kinds over the trimmed vocabulary with the client fixed; route lists: 0-1 routes x all default/client-count combinations, all ordered pairs and triples of the 12 core routes x 4 defaults; one-dimensional boundary sweeps",
+		"thorough": "side products over the extended vocabulary with two-dimensional sweeps; full product of all 8 kinds over the base vocabulary; lists up to ordered quadruples; all range edges in port sweeps",
+	}
 	c.Extra["totals"] = map[string]any{"configurations": tot.configs, "requests": tot.evals, "requests_where_reference_permits_more_than_one_outcome_or_is_order_dependent": tot.nondefinite}
 	c.Extra["vocabulary"] = map[string]any{
 		"port_specs":                   portLabels(),
